@@ -59,7 +59,7 @@ def plan(tier, seed):
         kind = ["generated", "generated", "generated", "db"][i % 4]
         fam = ["probe", "mixed", "probe", "discrete"][i % 4]
         cases.append({"kind": kind, "family": fam, "gseed": [seed, 9, i]})
-    for j in range(4 if tier == "quick" else 16):
+    for j in range(6 if tier == "quick" else 24):
         cases.append({"kind": "mixture", "gseed": [seed, 909, j]})
     return cases
 
@@ -581,7 +581,12 @@ def _mixture_spec(rng):
     if two:
         body.append({"k": "site", "addr": "w", "dist": "p_flip", "args": [["prob", ["asf", ["v", "z"]]]], "tag": 2})
         pred = ["v", "w"] if rng.random() < 0.5 else ["v", "z"]
-    body.append({"k": "cond", "addr": "obs", "T": T, "F": F, "pred": pred, "args": [["v", "p0"]]})
+    # in half of the models the indicator also changes the Cond's *arguments*, so one
+    # move both switches the branch and re-parameterises the (observed) branch choices
+    arg = ["v", "p0"]
+    if rng.random() < 0.5:
+        arg = ["add", ["v", "p0"], ["mul", c(rng.normal() * 1.5), ["asf", pred]]]
+    body.append({"k": "cond", "addr": "obs", "T": T, "F": F, "pred": pred, "args": [arg]})
     return {"params": ["p0"], "ptypes": [["f", []]], "body": body, "ret": ["v", "obs"]}
 
 
